@@ -41,6 +41,11 @@ CLAIMED = {
     design='5 C07',
     note='Trusted: z3, underlying population models as reference (C05), RNG stub. Bounds: n_dim <= 2, n_cov <= 2, n_ids <= 2, selections of <= 2 (3) pairs.',
     technique='symbolic execution on z3 reals + names-driven oracle + SMT validity queries over enumerated selections'),
+ 'C08': dict(
+    text='One inductive step from every reachable state of every reducible object (4 reduced error models, reduced population models over plain / composed / covariate models, reduced mechanistic model, LogLikelihood.fix_parameters): all (pre-state, call dictionary) transitions within the bound with symbolic values; the results at the free parameters are decided equal to the unfixed object at the substituted vector, names/counts are the free parameters in order, and the history equals a single net call (also with an evaluation between the calls).',
+    design='5 C08',
+    note='Trusted: z3 / hash-consed term identity (substitution is exact, so most obligations are decided by identity of the symbolic terms), RNG stub, the unfixed objects as reference. Outside: ProblemModellingController.fix_parameters with data, predictive models, SBML-backed models.',
+    technique='symbolic execution on z3 reals; inductive step over (mask, buffer) states x call dictionaries; SMT / term-identity equality'),
 }
 
 NOT_APPLICABLE = {
